@@ -262,6 +262,7 @@ fn one<C: CellType>(prog: &[Instr<C>], t: &mut [Tally; 3], w: &str) {
                 // (the tape is observed through the four trailing `out`s every program ends with: where
                 // the Context's pointer is left after a run is not part of any property -- the
                 // release-build `ret` does not save it)
+                println!("N9CASE {} {} run of {:?} from cells[-1..=2]={:?}", w, if mode == 0 { "checked" } else { "unchecked" }, p, init);
                 let (ev, _, _) = real::<C>(p, &init, mode, 0);
                 let ok = ev == st.ev;
                 if !st.ev.is_empty() || st.ptr != 0 {
